@@ -505,3 +505,80 @@ def fit_affine(points: List[Tuple[int, int]]) -> Optional[Tuple[int, int]]:
     a = (y1 - y0) // (x1 - x0)
     b = y0 - a * x0
     return (a, b) if all(a * x + b == y for x, y in points) else None
+
+
+def collision_witness(e: Lin, binders, limit: int = 60000, hints=()) -> Optional[Tuple[Dict[str, int], Dict[str, int], int]]:
+    """Two different values of the loop variables (binders: [(Sym, trip count)]) for which the exact element form e
+    evaluates to the same integer, at one valuation of the remaining symbols.  Table functions are evaluated through
+    their literal tables only (no table -> no witness).  Small domains are enumerated completely; large ones are
+    sampled at their ends and at the multiples of the bit positions at which the form slices the variable."""
+    if not isinstance(e, Lin) or e.has_opaque():
+        return None
+    bmap = {b.name: (b, n) for b, n in binders if n > 1}
+    if not bmap:
+        return None
+    cuts: Dict[str, set] = {}
+
+    def collect(l: Lin):
+        for at, _ in l.terms:
+            if isinstance(at, Slice):
+                cuts.setdefault(at.sym.name, set()).add(at.a)
+                if at.b is not None:
+                    cuts[at.sym.name].add(at.b)
+            elif isinstance(at, (ModA, DivA)):
+                collect(at.lin)
+            elif isinstance(at, Fn):
+                for x in at.args:
+                    collect(x)
+    collect(e)
+    for h in hints:       # forms derived from e (its decoded fields) show where e is cut into bit fields
+        if isinstance(h, Lin):
+            collect(h)
+    others = {s.name: s for s in e.syms() if s.name not in bmap}
+
+    def samples(name: str, lo: int, hi: int) -> List[int]:
+        if hi - lo < 96:
+            return list(range(lo, hi + 1))
+        c = {lo, lo + 1, lo + 2, lo + 3, hi, hi - 1, (lo + hi) // 2}
+        for a in cuts.get(name, ()):
+            for k in range(0, 9):
+                for d in (-1, 0, 1):
+                    v = (k << a) + d
+                    if lo <= v <= hi:
+                        c.add(v)
+        return sorted(c)
+    bdoms = [(nm, samples(nm, 0, n - 1)) for nm, (b, n) in sorted(bmap.items())]
+    odoms = []
+    for nm, s in sorted(others.items()):
+        lo = s.lo if s.lo is not None else 0
+        hi = s.hi if s.hi is not None else (1 << 60)
+        odoms.append((nm, samples(nm, lo, hi) if hi - lo < 13 else sorted({lo, hi, (lo + hi) // 2})))
+    total = 1
+    for _, d in bdoms + odoms:
+        total *= len(d)
+    if total > limit:
+        odoms = [(nm, d[:1]) for nm, d in odoms]
+        total = 1
+        for _, d in bdoms:
+            total *= len(d)
+        if total > limit:
+            return None
+
+    def fnval(atom, args):
+        tb = TABLES.get(atom.name)
+        if tb is not None and len(args) == 1 and 0 <= args[0] < len(tb):
+            return tb[args[0]]
+        raise KeyError(atom)
+    for ocombo in itertools.product(*[d for _, d in odoms]):
+        base = dict(zip([nm for nm, _ in odoms], ocombo))
+        seen: Dict[int, Dict[str, int]] = {}
+        for bcombo in itertools.product(*[d for _, d in bdoms]):
+            bv = dict(zip([nm for nm, _ in bdoms], bcombo))
+            try:
+                val = eval_lin(e, {**base, **bv}, fnval)
+            except KeyError:
+                return None
+            if val in seen:
+                return ({**base, **seen[val]}, {**base, **bv}, val)
+            seen[val] = bv
+    return None
